@@ -120,7 +120,7 @@ CHECKS = {
             "note": "the receive order is a ghost log appended in the same atomic step as the rendezvous with the monitor",
             "design_ref": "DESIGN.md §4 C05",
         },
-        "runs": [conc("HarnessC05Quick", ["c05-end"]), conc("HarnessC05Seq", ["c05-end"]), conc("HarnessC05AfterDone", ["c05-done-end"]), conc("HarnessC05RejectAccept", ["c05-end"]),
+        "runs": [conc("HarnessC05Quick", ["c05-end"]), conc("HarnessC05Seq", ["c05-end"]), conc("HarnessC05AfterDone", ["c05-done-end"]), conc("HarnessC05RejectAccept", ["c05-end"]), conc("HarnessC07Quick", ["c07-end"]),
                  conc("HarnessC05Thorough", ["c05-end"], ["thorough"], maxpaths=1000000, timeout="3000s"), conc("HarnessC05Three", ["c05-end"], ["thorough"], maxpaths=1000000, timeout="3000s")],
         "bounds": {"quick": "2 sources; 1+1 reports with 2 concurrent reads, 2+1 reports without reader; a nested pointer section set or not by the first update; all values symbolic; all schedules",
                    "thorough": "2+2 reports with 2 reads; 3+1 reports with 1 read"},
@@ -242,6 +242,7 @@ CHECKS = {
         "assumptions": REFLECT_ASSUME,
         "runs": [
             {"entry": M + "/sources/env.HarnessC14Env", "pkgs": ENVP + ["sort"], "must_reach": ["c14-end", "c14-both-error"]},
+            {"entry": M + "/sources/env.HarnessC14EnvNested", "pkgs": ENVP + ["sort"], "must_reach": ["c14-end", "c14-both-error"]},
             {"entry": M + "/sources/env.HarnessC14EnvImplicit", "pkgs": ENVP + ["sort"], "must_reach": ["c14-implicit-end", "c14-implicit-both-error"]},
             {"entry": M + "/sources/flag.HarnessC14Flag", "pkgs": FLAGP, "must_reach": ["c14-flag-end", "c14-flag-both-error"]},
             {"entry": M + "/sources/pflag.HarnessC14Pflag", "pkgs": PFLAGP, "must_reach": ["c14-pflag-end", "c14-pflag-both-error"]},
@@ -282,6 +283,8 @@ CHECKS = {
             {"entry": CC + ".HarnessC16DecodeQuick", "pkgs": LIBS + ["go/token"], "must_reach": ["c16-decode-end"], "loopcap": 300, "tiers": ["quick"]},
             {"entry": CC + ".HarnessC16EncodeQuick", "pkgs": LIBS + ["go/token"], "must_reach": ["c16-encode-end"], "loopcap": 300, "tiers": ["quick"]},
             {"entry": PARSE + ".HarnessC16MapKV", "pkgs": TEXT, "must_reach": ["c16-mapkv-end"], "loopcap": 300},
+            {"entry": M + "/sources/flag/flaghelper.HarnessC16HelperSetQuick", "pkgs": HELP, "must_reach": ["c16-helper-set-end"], "loopcap": 400, "tiers": ["quick"]},
+            {"entry": M + "/sources/flag/flaghelper.HarnessC16HelperSetThorough", "pkgs": HELP, "must_reach": ["c16-helper-set-end"], "loopcap": 400, "tiers": ["thorough"]},
             {"entry": M + "/sources/env.HarnessC16EnvNamedScalars", "pkgs": ENVP + ["sort"], "must_reach": ["c16-types-end"]},
             {"entry": M + "/sources/env.HarnessC16EnvNamedCollections", "pkgs": ENVP + ["sort"], "must_reach": ["c16-types-end"]},
             {"entry": M + "/sources/env.HarnessC16EnvPointers", "pkgs": ENVP + ["sort"], "must_reach": ["c16-types-end"]},
